@@ -95,6 +95,51 @@ def strategy(tier):
     return _case()
 
 
+EXHAUSTIVE_NOTE = ("every operator x operand form {variable-variable, variable-scalar, scalar-variable (reflected + - * / **), variable-ndarray} and both "
+                   "unary operators, at depth 1, for CellVariables and FaceVariables on all 9 grid classes (fixed small grid, non-default BCs); "
+                   "funceval/celleval/faceeval with every pool function; copy()")
+ENUM_FACES = dict(x=[0.0, 0.4, 1.0], r=[0.5, 0.8, 1.5], thc=[0.0, 1.0, 2.5], ths=[0.4, 1.0, 2.0], ph=[0.0, 1.5, 2.5])
+
+
+def enumerate_cases(tier):
+    from ..common import bc_shape
+    for name in GRIDS:
+        kinds = AXES[name]
+        faces = [ENUM_FACES[k] for k in kinds]
+        d = dims_of(faces)
+        g = dict(name=name, faces=faces, spacing=['random'] * len(kinds))
+        bc = []
+        for ax in range(len(d)):
+            shp = bc_shape(d, ax)
+            bc.append(dict(periodic='none',
+                           lo=dict(kind='R', a=(-gen.expand('generic', 1 + ax, shp, 0.3, 2.0)).tolist(), b=gen.expand('generic', 2 + ax, shp, 0.3, 2.0).tolist(),
+                                   c=gen.expand('generic', 3 + ax, shp).tolist()),
+                           hi=dict(kind='D', a=np.zeros(shp).tolist(), b=np.ones(shp).tolist(), c=gen.expand('generic', 4 + ax, shp).tolist())))
+        cvars = [dict(init=(gen.expand('quarter', 11 + i, d) + 0.125).tolist(), bc=bc, dirty='clean') for i in range(2)]
+        fvars = [dict(comps=[(gen.expand('int', 21 + 5 * i + j, sh) + 0.5 * j).tolist() for j, sh in enumerate(face_shapes(d))]) for i in range(2)]
+        trees = [['un', 'neg', ['var', 0]], ['un', 'abs', ['var', 0]]]
+        for op in BIN:
+            trees.append(['bin', op, ['var', 0], ['var', 1]])
+            trees.append(['bin', op, ['var', 1], ['var', 0]])
+            trees.append(['bin', op, ['var', 0], ['sc', 2.0]])
+            trees.append(['bin', op, ['var', 0], ['sc', -1.5]])
+        for op in REFLECTABLE:
+            trees.append(['bin', op, ['sc', 2.0], ['var', 0]])
+            trees.append(['bin', op, ['sc', 3], ['var', 1]])
+        for t in trees:
+            yield dict(kind='cell', grid=g, nvars=2, vars=cvars, tree=t, enumerated=True)
+            yield dict(kind='face', grid=g, nvars=2, vars=fvars, tree=t, npscalar=False, enumerated=True)
+        for op in BIN:
+            yield dict(kind='cell', grid=g, nvars=2, vars=cvars, tree=['bin', op, ['var', 0], ['arr', 7]], enumerated=True)
+        for pool, na in ((FUNCS1, 1), (FUNCS2, 2), (FUNCS3, 3)):
+            for fn in sorted(pool):
+                for alias in ('funceval', 'celleval'):
+                    yield dict(kind='funceval', grid=g, nvars=2, vars=cvars, func=fn, args=[0, 1, 0][:na], alias=alias, enumerated=True)
+                yield dict(kind='faceeval', grid=g, nvars=2, vars=fvars, func=fn, args=[0, 1, 0][:na], alias='faceeval', enumerated=True)
+        yield dict(kind='copy', grid=g, nvars=1, vars=[dict(cvars[0], dirty='value')], enumerated=True)
+        yield dict(kind='copy', grid=g, nvars=1, vars=[dict(cvars[0], dirty='bc')], enumerated=True)
+
+
 def budget(tier):
     return 3000 if tier == "quick" else 40000
 
